@@ -8,6 +8,8 @@ from __future__ import annotations
 import typing
 from contextlib import suppress
 
+from physt.plotting.common import check_ndim
+
 if typing.TYPE_CHECKING:
     from physt.types import Histogram1D, Histogram2D
 
@@ -19,8 +21,12 @@ dims = {
 }
 
 
+@check_ndim(1)
 def hbar(h1: "Histogram1D", width: int = 80, show_values: bool = False) -> None:
-    data = (h1.normalize().frequencies * width).round().astype(int)
+    if h1.total:
+        data = (h1.normalize().frequencies * width).round().astype(int)
+    else:
+        data = [0] * h1.bin_count  # (an empty histogram has no bars)
     for i in range(h1.bin_count):
         # TODO: Print bin labels somehow
         if show_values:
